@@ -362,6 +362,7 @@ def c06_inputs(tier, prop='C06'):
         cl, kl, nd, per, nr = 4, 3, 300, 200, 30000
     cases = list(gen.strings_upto(gen.CHAR_ALPHABET, cl))
     cases += list(gen.strings_upto(gen.KIND_ALPHABET, kl))
+    cases += gen.env_edge_cases() + gen.odd_char_cases()
     exhaustive_n = len(cases)
     docs = [s for s, _ in inputs.grammar_docs(prop, nd, 3, maxchars=400)]
     docs += [s for s in inputs.repo_samples() if len(s) < 3000][:2]
@@ -545,6 +546,7 @@ def c08_inputs(tier, prop='C08'):
         cl, kl, nd, per, nr = 4, 4, 300, 200, 40000
     cases = list(gen.strings_upto(gen.CHAR_ALPHABET_NO_IGN, cl))
     cases += list(gen.strings_upto(gen.KIND_ALPHABET_NO_IGN, kl))
+    cases += gen.env_edge_cases() + gen.odd_char_cases()
     nex = len(cases)
     docs = [s for s, _ in inputs.grammar_docs(prop, nd, 3, spaced=True, maxchars=400)]
     cases += docs
